@@ -1,0 +1,92 @@
+//go:build verif
+
+package http3
+
+// Export shims for the C19 check of the verification harness in /verif (compiled only with -tags verif).
+// Add-only; nothing here is referenced by non-verif code.
+
+import (
+	"bytes"
+	"context"
+	"errors"
+	"log/slog"
+	"net/http"
+	"strconv"
+	"time"
+
+	"github.com/quic-go/qpack"
+	"github.com/refraction-networking/uquic"
+)
+
+// VerifRequestFromDecodeFn runs the request field-section parser over an arbitrary decode function
+// (so that a QPACK decoding failure in the middle of a section can be simulated).
+func VerifRequestFromDecodeFn(fn qpack.DecodeFunc, sizeLimit int) (*http.Request, error) {
+	return requestFromHeaders(fn, sizeLimit, nil)
+}
+
+// VerifUpdateResponseFromDecodeFn is the response counterpart of VerifRequestFromDecodeFn.
+func VerifUpdateResponseFromDecodeFn(rsp *http.Response, fn qpack.DecodeFunc, sizeLimit int) error {
+	return updateResponseFromHeaders(rsp, fn, sizeLimit, nil)
+}
+
+// VerifParseTrailersDecodeFn is the trailer counterpart of VerifRequestFromDecodeFn.
+func VerifParseTrailersDecodeFn(fn qpack.DecodeFunc, sizeLimit int) (http.Header, error) {
+	return parseTrailers(fn, sizeLimit, nil)
+}
+
+// verifMemStream is an in-memory datagramStream: everything written is appended to buf.
+type verifMemStream struct {
+	buf bytes.Buffer
+}
+
+var _ datagramStream = &verifMemStream{}
+
+func (s *verifMemStream) Read([]byte) (int, error)         { return 0, errors.New("verif: write-only stream") }
+func (s *verifMemStream) Write(p []byte) (int, error)      { return s.buf.Write(p) }
+func (s *verifMemStream) Close() error                     { return nil }
+func (s *verifMemStream) CancelRead(quic.StreamErrorCode)  {}
+func (s *verifMemStream) CancelWrite(quic.StreamErrorCode) {}
+func (s *verifMemStream) StreamID() quic.StreamID          { return 0 }
+func (s *verifMemStream) Context() context.Context         { return context.Background() }
+func (s *verifMemStream) SetDeadline(time.Time) error      { return nil }
+func (s *verifMemStream) SetReadDeadline(time.Time) error  { return nil }
+func (s *verifMemStream) SetWriteDeadline(time.Time) error { return nil }
+func (s *verifMemStream) SendDatagram([]byte) error        { return errors.New("verif: no datagrams") }
+func (s *verifMemStream) ReceiveDatagram(context.Context) ([]byte, error) {
+	return nil, errors.New("verif: no datagrams")
+}
+func (s *verifMemStream) QUICStream() *quic.Stream { return nil }
+
+// VerifResponseWriter is the server's responseWriter over an in-memory stream.
+type VerifResponseWriter struct {
+	rw  *responseWriter
+	str *verifMemStream
+}
+
+// VerifNewResponseWriter constructs the responseWriter exactly like RawServerConn.handleRequestStream does
+// (newStream + newResponseWriter), but over an in-memory stream and without a connection.
+func VerifNewResponseWriter(isHead bool, logger *slog.Logger) *VerifResponseWriter {
+	ms := &verifMemStream{}
+	hstr := newStream(ms, nil, nil, nil, nil)
+	return &VerifResponseWriter{rw: newResponseWriter(hstr, nil, isHead, logger), str: ms}
+}
+
+// Writer returns the http.ResponseWriter (also an http.Flusher) a handler would be given.
+func (v *VerifResponseWriter) Writer() http.ResponseWriter { return v.rw }
+
+// Finish performs the steps RawServerConn.handleRequestStream performs after the handler returned
+// without panicking or hijacking the stream (server_conn.go: set Content-Length if the header was
+// not written yet, Flush, flushTrailers).
+func (v *VerifResponseWriter) Finish() {
+	r := v.rw
+	if !r.headerWritten {
+		if _, haveCL := r.header["Content-Length"]; !haveCL {
+			r.header.Set("Content-Length", strconv.FormatInt(r.numWritten, 10))
+		}
+	}
+	r.Flush()
+	r.flushTrailers()
+}
+
+// Bytes returns everything written to the stream so far.
+func (v *VerifResponseWriter) Bytes() []byte { return v.str.buf.Bytes() }
